@@ -4,6 +4,7 @@ package main
 
 import (
 	"bytes"
+	"crypto/sha256"
 	"encoding/json"
 	"fmt"
 	"os"
@@ -46,7 +47,7 @@ const (
 	OpLVFO    // LoadVersionForOverwriting
 	OpDelFrom // DeleteVersionsFrom(v+1) + LoadVersion(v)
 	OpSetNil
-	OpRead // read-only deviation (C02); Arg selects the call
+	OpRead   // read-only deviation (C02); Arg selects the call
 	OpImport // export version Ver, import into a fresh store, continue on the imported tree
 	OpSaveCS // SaveChangeSet built from the pending ops (C15)
 	OpExportOpen
@@ -114,9 +115,11 @@ func isMaint(k OpKind) bool {
 
 // Violation describes one failed oracle.
 type Violation struct {
-	Oracle string `json:"oracle"`
-	Detail string `json:"detail"`
-	Known  string `json:"known,omitempty"` // id of the known finding that matched, if any
+	Oracle string         `json:"oracle"`
+	Detail string         `json:"detail"`
+	Known  string         `json:"known,omitempty"` // id of the known finding that matched, if any
+	Facts  map[string]any `json:"facts,omitempty"`
+	OpVer  int64          `json:"-"`
 }
 
 func (v *Violation) Error() string { return v.Oracle + ": " + v.Detail }
@@ -126,16 +129,18 @@ func viol(oracle, format string, a ...any) *Violation {
 }
 
 type World struct {
-	Cfg   Cfg
-	Base  corestore.KVStoreWithBatch // the physical store
-	VS    *vstore.Store              // == Base when Backend is vstore
-	DB    corestore.KVStoreWithBatch // what iavl sees (PrefixDB wraps Base)
-	Tree  *iavl.MutableTree
-	M     *Model
-	tmp   string // temp dir of a leveldb backend
-	exps  map[int64][]*iavl.Exporter
-	Dead  bool // a panic / unrecoverable error happened in the instance
+	Cfg    Cfg
+	Base   corestore.KVStoreWithBatch // the physical store
+	VS     *vstore.Store              // == Base when Backend is vstore
+	DB     corestore.KVStoreWithBatch // what iavl sees (PrefixDB wraps Base)
+	Tree   *iavl.MutableTree
+	M      *Model
+	tmp    string // temp dir of a leveldb backend
+	exps   map[int64][]*iavl.Exporter
+	Dead   bool // a panic / unrecoverable error happened in the instance
 	NMaint int
+	NReads int
+	Strict bool
 }
 
 func newStore(backend string) (corestore.KVStoreWithBatch, corestore.KVStoreWithBatch, *vstore.Store, string) {
@@ -258,6 +263,9 @@ func (w *World) Apply(op Op) *Violation {
 	if isMaint(op.Kind) {
 		w.NMaint++
 	}
+	if op.Kind == OpRead {
+		w.NReads++
+	}
 	v := safely(op.String(), func() *Violation { return w.apply(op) })
 	if v != nil && v.Oracle == "panic" {
 		w.Dead = true
@@ -355,8 +363,18 @@ func (w *World) applySave() *Violation {
 	t, m := w.Tree, w.M
 	wantWH := m.WorkingHash()
 	gotWH := t.WorkingHash()
+	exists := m.Has(m.WorkingVersion())
+	var before []byte
+	if exists && w.Strict {
+		before = dumpDigest(w)
+	}
 	h, ver, err := t.SaveVersion()
 	mh, mv, ok := m.SaveVersion()
+	if exists && w.Strict {
+		if after := dumpDigest(w); !bytes.Equal(before, after) {
+			return viol("recommit", "SaveVersion on existing version %d (err=%v) changed the storage", mv, err)
+		}
+	}
 	if ok != (err == nil) {
 		return viol("api", "SaveVersion err=%v, model ok=%v (target %d)", err, ok, mv)
 	}
@@ -373,6 +391,12 @@ func (w *World) applySave() *Violation {
 		return viol("hash", "SaveVersion hash of v%d = %x, reference %x", mv, h, mh)
 	}
 	return nil
+}
+
+func dumpDigest(w *World) []byte {
+	h := sha256.New()
+	hashKVs(h, dumpStore(w))
+	return h.Sum(nil)
 }
 
 func (w *World) applyReopen(op Op) *Violation {
